@@ -47,7 +47,7 @@ var checks = map[string]checkSpec{
 	"C20": {
 		Scenarios: []scnSpec{{Name: "lenfuzz", Share: 1, CountKey: "lenfuzz", MemLimitKB: 8 << 20}},
 		Quick:     25 * time.Second, Thorough: 10 * time.Minute, Level: "fault_enumeration",
-		Rule: "For every Transport/Client response kind of the corpus, every length or count field of the encoded response (frame size, fixed and compact string/bytes/array lengths, tagged-field counts and sizes, record-set size, batch length / message size and, left with their wrong checksum, the lengths inside record batches) is overwritten with each value of {-2^31, -2, -1, 0, 1, 2^16, 2^31-1, (varints:) 2^32, 2^63-1, true-1, true+1, rest-of-frame+1}; the call must return (no panic, no process death), within its deadline, and allocate no more than 64 x bytes received + 1 MiB (+ a fixed decompressor allowance).",
+		Rule:   "For every Transport/Client response kind of the corpus, every length or count field of the encoded response (frame size, fixed and compact string/bytes/array lengths, tagged-field counts and sizes, record-set size, batch length / message size and, left with their wrong checksum, the lengths inside record batches) is overwritten with each value of {-2^31, -2, -1, 0, 1, 2^16, 2^31-1, (varints:) 2^32, 2^63-1, true-1, true+1, rest-of-frame+1}; the call must return (no panic, no process death), within its deadline, and allocate no more than 64 x bytes received + 1 MiB (+ a fixed decompressor allowance).",
 		Assume: []string{"allocation is measured with runtime.MemStats.TotalAlloc around the call in a single-goroutine-at-a-time simulation"},
 	},
 	"C12": {
